@@ -238,6 +238,17 @@ def drive_default(chk, rng, thorough):
         num, den = defreg.residues(r) if exact else ([0, 0], [1, 1])
         events.append({"ev": "conv", "a": defreg.cont({a: int(e)}), "b": defreg.cont({b: int(e)}), "res": "ok", "checkfactor": True,
                        "num": num, "den": den, "pyexact": exact, "_form": form, "_r": repr(r), "_e": e})
+    # the float registry's root factor of every canonical unit - irrational chains (square roots in Gaussian / atomic units) included -
+    # against the factor computed from the reader's table in floating point (harness arithmetic: 1e-9 relative)
+    for n in canon:
+        chk.case(("float-root-factor", n))
+        try:
+            want, got = defreg.float_factor(n), float(uflt.get_root_units(n)[0])
+        except Exception as e:
+            chk.diverge({"clause": "root-raises", "exc": type(e).__name__, "src": "default-registry", "registry": "float"}, {"unit": n})
+            continue
+        if abs(got - want) > 1e-9 * abs(want):
+            chk.diverge({"clause": "float-root-factor", "src": "default-registry"}, {"unit": n, "expected": want, "observed": got})
     # root factor of every canonical unit
     for n in canon:
         try:
